@@ -189,7 +189,9 @@ Qed.
 Section Shape.
 Variable signer : tx -> N -> N -> option bytes.
 
-(** an input after signing: untouched, or carrying a script the signer returned *)
+(** an input after signing: untouched, or carrying a script the signer returned.
+    [signed_by] forgets the (transaction, index, flags) the signer saw; the version that remembers them is
+    [sign_loop_signs] of proofs/OrdSignProofs.v (C20_sign_loop_signs, C20_*_sign_final_tx) *)
 Definition signed_by (a b : input) : Prop :=
   b = a \/ exists t j f u, signer t j f = Some u /\ b = with_unlock a u.
 
